@@ -278,7 +278,7 @@ def run(tier):
     mc = model_check(chk, tier)
     fixed_vecs, pinned_vecs = algorithm_models(chk)
     scens = scenarios(bindir)
-    boundary = {x for x in scens if "_peer_" in x or "_pathlen_" in x or "_entries_" in x or "_buf_" in x or x.endswith(("_empty", "_large", "_zero_buf"))}
+    boundary = {x for x in scens if x.startswith("wrongkind_") or "_peer_" in x or "_pathlen_" in x or "_entries_" in x or "_buf_" in x or x.endswith(("_empty", "_large", "_zero_buf"))}
     # 1. dry runs: the calls each scenario performs
     plan = []
     dry = {}
